@@ -30,7 +30,8 @@ ASSUMPTIONS = ["six 1.17 shim on sys.path", "consonance randint(float) coerced b
 BUDGET = {"quick": (1600, 150), "thorough": (40000, 2400)}
 FAULTS = ["short_send", "tcp_cut", "tcp_coalesce"]
 PROBES = ["lock_contention", "ping_while_app_frame_in_flight", "buffered_after_short_send", "switch_inside_frame",
-          "big_frame_gt_64k", "pings_sent", "ping_timeout_run"]
+          "big_frame_gt_64k", "pings_sent", "ping_timeout_run", "reconnect_while_senders_active", "send_refused_during_reconnect", "sender_released_at_connected",
+          "connections_per_run"]
 SHRINK = ["senders"]
 PHONE = "4915112345678"
 _S = {}
@@ -74,6 +75,7 @@ def setup():
         w = App.world
         if w is not None and not w.closed:
             w.send_calls.append(bytes(data))
+            w.send_calls_by.setdefault(id(self), []).append(bytes(data))
             if len(data) > 65536:
                 w.probe("big_frame_gt_64k")
         r = orig(self, data)
@@ -107,8 +109,15 @@ def case(idx, tier, base):
     net["recv_cap"] = max(net["recv_cap"], 64)
     net["short_send_p"] = r.choice([0.0, 0.3, 0.8])
     sched = wire.draw_sched(r)
+    # some histories go through 2-3 connections on the same stack while the senders keep sending: connection k ends
+    # (peer close or a disconnect request of the application) after the server has decoded so many stanzas on it, the
+    # application reconnects from its DISCONNECTED handler like YowInterfaceLayer does
+    ends = []
+    if r.random() < 0.3:
+        for _ in range(r.randint(1, 2)):
+            ends.append({"after": r.randint(1, max(2, sid // 3)), "how": r.choice(["peer_close", "app_disconnect"])})
     return {"seed": seed, "variant": r.choice(["XX", "IK"]), "senders": senders, "net": net, "sched": sched,
-            "ping": r.choice([1, 1, 2, 3]), "srv_noise": r.choice([0, 5, 40]), "sid": sid}
+            "ping": r.choice([1, 1, 2, 3]), "srv_noise": r.choice([0, 5, 40]), "sid": sid, "ends": ends}
 
 
 def repair(case):
@@ -170,6 +179,11 @@ class W(wire.World):
         self.entered = []        # Nodes in the order they entered the coder (under the group's lock)
         self.entered_by = []     # task name per entry
         self.send_calls = []     # bytes of every dispatcher.sendData call
+        self.send_calls_by = {}  # ... per dispatcher object (one per connection), in creation order
+        self.ends = list(case.get("ends") or [])
+        self.sessions = []       # per accepted connection: {"r": responder, "conn", "decoded": [...], "success": bool}
+        self.epoch = 0           # bumped whenever a connection comes up or goes down
+        self.entered_mark = 0    # len(entered) when the current connection's login completed
         self.decoded = []
         self.authed = False
         self.done_senders = 0
@@ -179,6 +193,8 @@ class W(wire.World):
         self.disconnected = False
         self.closed = False
         self.disc_reason = None
+        self.want_app_disconnect = False
+        self.window_waiters = []
 
     def build(self):
         S = _S
@@ -197,13 +213,13 @@ class W(wire.World):
         os.makedirs(os.path.join(self.cfg_home, "yowsup", PHONE), exist_ok=True)
         S["App"].world = self
         layers = (S["YowNetworkLayer"], S["YowNoiseSegmentsLayer"], S["YowNoiseLayer"], S["YowCoderLayer"],
-                  S["YowParallelLayer"]((S["YowAuthenticationProtocolLayer"], S["YowIqProtocolLayer"], S["App"])))
+                  S["YowParallelLayer"]((S["App"], S["YowAuthenticationProtocolLayer"], S["YowIqProtocolLayer"])))
         st = S["YowStack"](layers, reversed=False)
         st.setProfile(YowProfile(PHONE, conf))
         st.setProp(S["YowIqProtocolLayer"].PROP_PING_INTERVAL, self.case["ping"])
         self.stack = st
         self.group = st.getLayer(4)
-        self.app = self.group.sublayers[2]
+        self.app = self.group.sublayers[0]
         self.coder = st.getLayer(3)
         self.netlayer = st.getLayer(0)
         # observation point: stanzas entering the coder (observation only; calls the real method)
@@ -230,13 +246,34 @@ class W(wire.World):
         n = RC.from_ptn(node)
         if n.tag == "success":
             self.authed = True
+            self.epoch += 1
+            self.entered_mark = len(self.entered)
 
     def on_event(self, ev):
         name = ev.getName()
         if name.endswith("network.disconnect"):
             self.disc_reason = ev.getArg("reason")
+        if name.endswith("network.connected"):
+            self.epoch += 1
+            if self.window_waiters:
+                # the application double sits in front of the authentication layer: at this point the connection is up
+                # and the login has not been started yet.  Senders parked for this moment become runnable; whether one
+                # of them runs now or later is the scheduler's choice.
+                self.probe("sender_released_at_connected")
+                for t in self.window_waiters:
+                    self.k.wake(t)
+                self.window_waiters = []
+                self.k.yield_()
         if name.endswith("network.disconnected"):
-            self.disconnected = True
+            self.epoch += 1
+            self.authed = False
+            if len(self.sessions) <= len(self.ends) and not self.closed and not self.violations:
+                # more connections are planned: reconnect from the handler, like YowInterfaceLayer.onDisconnected
+                self.probe("reconnect_while_senders_active")
+                self.disc_reason = None
+                self.app.getLayerInterface(_S["YowNetworkLayer"]).connect()
+            else:
+                self.disconnected = True
 
     # ---------------------------------------------------------------- tasks
     def t_main(self):
@@ -247,31 +284,35 @@ class W(wire.World):
     def t_server(self):
         from doubles.noise_server import NoiseResponder, ProtocolViolation
         net = self.net
-        r = None
-        conn0 = None
-        sent_success = False
         noise_left = self.case.get("srv_noise", 0)
         while True:
             ev = net.next_event()
             kind, conn = ev
             if kind == "accept":
-                if r is not None:
+                if len(self.sessions) > len(self.ends):
                     continue
-                r = NoiseResponder(self.server_key)
-                conn0 = conn
-                self.sess = r
-            elif kind == "data" and conn is conn0:
+                ses = {"r": NoiseResponder(self.server_key), "conn": conn, "decoded": [], "success": False, "no": len(self.sessions),
+                       "ended": False}
+                conn.user = ses
+                self.sessions.append(ses)
+                self.sess = ses["r"]
+            elif kind == "data" and getattr(conn, "user", None) is not None:
+                ses = conn.user
+                r = ses["r"]
                 data = bytes(conn.c2s.buf)
                 del conn.c2s.buf[:]
+                if ses["ended"]:
+                    continue
                 try:
                     r.feed(data)
                 except ProtocolViolation as e:
-                    self.violate("C11/socket/%s" % _slug(str(e)), "the byte stream reaching the socket is corrupt: %s "
-                                 "(after %d good frames; %d stanzas had entered the coder)" % (e, r.rx_frames, len(self.entered)))
+                    self.violate("C11/socket/%s" % _slug(str(e)), "connection %d: the byte stream reaching the socket is corrupt: %s "
+                                 "(after %d good frames; %d stanzas had entered the coder)" % (ses["no"], e, r.rx_frames, len(self.entered)))
+                    ses["ended"] = True
                     net.server_close(conn)
                     continue
-                if r.stage == "transport" and not sent_success:
-                    sent_success = True
+                if r.stage == "transport" and not ses["success"]:
+                    ses["success"] = True
                     r.send_frame(RC.encode(RC.Node("success", {"t": "1", "props": "1", "location": "atn", "creation": "1"})))
                 while r.rx:
                     raw = r.rx.pop(0)
@@ -281,6 +322,7 @@ class W(wire.World):
                         self.violate("C11/socket/undecodable-stanza", "frame %d decrypts but does not decode: %r" % (len(self.decoded), e))
                         continue
                     self.decoded.append(n)
+                    ses["decoded"].append(n)
                     if n.tag == "iq" and n["xmlns"] == "w:p":
                         r.send_frame(RC.encode(RC.Node("iq", {"type": "result", "from": "s.whatsapp.net", "id": n["id"]})))
                     elif noise_left > 0:
@@ -290,6 +332,15 @@ class W(wire.World):
                 out = r.take_out()
                 if out:
                     net.server_send(conn, out)
+                end = self.ends[ses["no"]] if ses["no"] < len(self.ends) else None
+                if end is not None and len(ses["decoded"]) >= end["after"] and not ses["ended"] and not ses.get("end_fired"):
+                    ses["end_fired"] = True
+                    self.k.note("connection", ses["no"], "ends:", end["how"])
+                    if end["how"] == "peer_close":
+                        ses["ended"] = True
+                        net.server_close(conn)
+                    else:
+                        self.want_app_disconnect = ses["no"] + 1
 
     def t_sender(self, si):
         k = self.k
@@ -304,14 +355,34 @@ class W(wire.World):
             n = wire.gen_stanza(self.seed, it["i"], it.get("big"))
             if n.tag in ("iq", "success", "failure", "stream:error", "stream:features"):
                 n.tag = "x" + n.tag
+            if self.want_app_disconnect:
+                target, self.want_app_disconnect = self.want_app_disconnect - 1, False
+                if target == len(self.sessions) - 1 and self.authed:
+                    self.stack.broadcastEvent(_S["YowLayerEvent"](_S["YowNetworkLayer"].EVENT_STATE_DISCONNECT))
+            e0, up0 = self.epoch, self.authed
             try:
                 self.app.toLower(RC.to_ptn(n))
             except Exception as e:  # noqa
-                if not self.disconnected:
+                if self.ends and (not up0 or not self.authed or self.epoch != e0 or self.sessions[-1]["ended"]
+                                  or self.sessions[-1]["conn"].client_closed):
+                    # the connection was going down / coming up while this send was under way: refusing it is fine
+                    self.probe("send_refused_during_reconnect")
+                elif not self.disconnected:
                     self.violate("C11/send-raises:%s" % type(e).__name__, "sender %d: %r" % (si, e))
-                break
+                    break
+                else:
+                    break
             if it.get("gap"):
                 k.sleep(it["gap"])
+            if self.ends and not self.authed:
+                # between connections: some senders go on at once, some wait a little, some wait for the moment the next
+                # connection comes up, so that sends fall into every part of the transition
+                x = self.srv_rng.random()
+                if x < 0.4:
+                    k.sleep(0.002)
+                elif x < 0.8 and len(self.sessions) <= len(self.ends):
+                    self.window_waiters.append(k.cur)
+                    k.wait("next-connection", k.now + int(5e6))
         self.done_senders += 1
 
     def t_driver(self):
@@ -323,25 +394,40 @@ class W(wire.World):
         # let the keep-alive fire at least once more and everything drain
         k.sleep(self.case["ping"] + 0.5 if self.case["ping"] < 50 else 0.5)
         settle = k.now + int(60e6)
-        while k.now < settle and len(self.decoded) < len(self.entered) and not self.violations and not self.disconnected:
-            k.sleep(0.05)
+        if self.ends and len(self.sessions) > 1:
+            # several connections: some stanzas were legitimately lost with a connection; wait for what entered on the
+            # last connection up to now (the keep-alive goes on sending)
+            self.final_mark = len(self.entered)
+            tail = [n.key() for n in self.entered[self.entered_mark:self.final_mark]]
+            while k.now < settle and not self.violations and not self.disconnected:
+                have = set(n.key() for n in self.decoded)
+                if all(t in have for t in tail):
+                    break
+                k.sleep(0.05)
+        else:
+            while k.now < settle and len(self.decoded) < len(self.entered) and not self.violations and not self.disconnected:
+                k.sleep(0.05)
         k.finish()
 
     # ---------------------------------------------------------------- oracle
     def judge(self):
         # (i) dispatcher.sendData call sequence: whole frames, each header directly followed by its payload
-        stream_i = b"".join(self.send_calls)
-        self._frames_ok(stream_i, "senddata")
-        # (ii) socket bytes
-        sock = b"".join(e[2] for e in self.net.log if e[0] == "send")
-        self._frames_ok(sock, "socket")
-        if sock != stream_i[:len(sock)] and not self.violations:
-            # what was accepted by the socket must be a prefix of what the layers handed to the dispatcher
-            i = 0
-            while i < min(len(sock), len(stream_i)) and sock[i] == stream_i[i]:
-                i += 1
-            self.violate("C11/socket/differs-from-senddata", "socket byte stream diverges from the sendData stream at offset %d "
-                         "(socket %d bytes, sendData %d bytes)" % (i, len(sock), len(stream_i)))
+        # (ii) socket bytes; per connection: what was accepted by the socket must be a prefix of what the layers handed
+        # to that connection's dispatcher
+        by_conn = {}
+        for e in self.net.log:
+            if e[0] == "send":
+                by_conn.setdefault(e[1], []).append(e[2])
+        socks = [b"".join(v) for _, v in sorted(by_conn.items())]
+        streams = [b"".join(v) for v in self.send_calls_by.values()]
+        for ci, sock in enumerate(socks):
+            stream_i = streams[ci] if ci < len(streams) else b""
+            if sock != stream_i[:len(sock)] and not self.violations:
+                i = 0
+                while i < min(len(sock), len(stream_i)) and sock[i] == stream_i[i]:
+                    i += 1
+                self.violate("C11/socket/differs-from-senddata", "connection %d: socket byte stream diverges from the sendData stream "
+                             "at offset %d (socket %d bytes, sendData %d bytes)" % (ci, i, len(sock), len(stream_i)))
         # exactly once
         want = {}
         for n in self.entered:
@@ -353,7 +439,20 @@ class W(wire.World):
             if c > want.get(key, 0):
                 self.violate("C11/stanza/%s" % ("duplicate" if key in want else "unknown"),
                              "server decoded %d copies of <%s id=%s>, %d were sent" % (c, key[0], dict(key[1]).get("id"), want.get(key, 0)))
-        if not self.disconnected:
+        if self.ends and len(self.sessions) > 1:
+            # several connections: what entered while a connection was going down or coming up may be lost with it; what
+            # entered after the last login completed (and that connection stayed up) must arrive
+            self.probe("connections_per_run", len(self.sessions))
+            if not self.disconnected and len(self.sessions) == len(self.ends) + 1 and self.authed:
+                tail = {}
+                for n in self.entered[self.entered_mark:getattr(self, "final_mark", len(self.entered))]:
+                    tail[n.key()] = tail.get(n.key(), 0) + 1
+                for key, c in tail.items():
+                    if got.get(key, 0) < 1:
+                        self.violate("C11/stanza/lost/after-reconnect", "<%s id=%s> entered the coder after the login of connection "
+                                     "%d completed and never reached the server" % (key[0], dict(key[1]).get("id"), len(self.sessions) - 1))
+                        break
+        elif not self.disconnected:
             for key, c in want.items():
                 if got.get(key, 0) < c:
                     self.violate("C11/stanza/lost", "<%s id=%s> was sent %d times, server decoded %d (entered %d, decoded %d)"
